@@ -9,4 +9,4 @@ Extraction "c15_model.ml"
   c15_max_size c15_malloc_allocate c15_aligned_allocate c15_sys_malloc c15_sys_aligned c15_spec_malloc_must_refuse c15_spec_unservable
   c15_dbg_run c15_dbg_final c15_dbg_destroy c15_dbg_state0 c15_spec_dbg_trace c15_spec_dbg_servable c15_spec_dbg_destroy
   c15_dbgk_run c15_dbgk_state0 c15_pa_max_size c15_pa_equal c15_stateless_equal
-  c15_isAligned c15_spec_isAligned.
+  c15_isAligned c15_spec_isAligned c15_hrun c15_hclient_empty c15_mrun c15_mops_ok c15_alignedbase_new c15_debug_alignment.
